@@ -219,7 +219,7 @@ def rand_val(rng):
 FLAG_BITS = [0x1, 0x4, 0x10, 0x40, 0x80, 0x800]
 
 
-def make_state(rng, cand, d, rip, want_fault=None, force_T=None, force_pair=None):
+def make_state(rng, cand, d, rip, want_fault=None, force_T=None, force_pair=None, force_rsp=None):
     """build the machine state around a decoded candidate; returns a case dict"""
     code = bytearray(cand.bytes[: int(d["len"], 16)])
     ln = len(code)
@@ -242,6 +242,8 @@ def make_state(rng, cand, d, rip, want_fault=None, force_T=None, force_pair=None
                               STACK + PAGE - 7, STACK + PAGE - 9, STACK + PAGE - 1, STACK + PAGE - 15, STACK + PAGE - 16, STACK - 1,
                               STACK + 1, STACK + 7, STACK + 8, STACK + PAGE - 2, STACK + PAGE - 4, STACK + PAGE - 6, STACK + PAGE - 10,
                               STACK + PAGE - 12, STACK + PAGE - 3, STACK + PAGE - 5])
+    if force_rsp is not None:
+        regs[6] = force_rsp
     has_mem = "Memory" in (d["k0"], d["k1"], d["k2"], d["k3"])
     placement = "none"
     if has_mem:
@@ -687,6 +689,40 @@ def generate_edge_sweep(axh, seed):
         c, d = have[code]
         for k in (1, 2, 3, 4, 7, 8, 15, 16):
             out.append(make_state(rng, c, d, rip, force_T=AREA_RW + PAGE - k))
+    return out
+
+
+def generate_stack_sweep(axh, seed):
+    """every dispatched stack form (PUSH / POP / CALL / RET, all operand sizes and operand kinds) with the stack
+    pointer at every distance 0..17 below the end of the stack area and 0..9 above its start - deterministic, so an
+    access of the wrong size at the edge of the mapped stack cannot be missed by an unlucky draw"""
+    rng = random.Random(seed ^ 0x57ac)
+    table = load_codes()
+    dispatched = set(table["codes"]) - set(table["stubs"])
+    rip = CODE_BASE + 0x100
+    recs = build_recipes(axh)
+    fam = sorted(k for k in recs if k in dispatched and k.split("_")[0] in ("Push", "Pushq", "Pop", "Call", "Retnq"))
+    have = {}
+    for _ in range(6):
+        cands = [gen_candidate(rng, recipe=rng.choice(recs[k])) for k in fam for _ in range(30) if k not in have]
+        if not cands:
+            break
+        for c, toks in zip(cands, decode_bulk(axh, cands, rip)):
+            d = dec_dict(toks)
+            if d is None or d["code"] not in dispatched or d["code"] not in fam:
+                continue
+            if "SP" in d["r0"] or d["base"] in ("RSP", "ESP", "RIP", "EIP") or d["index"] in ("RSP", "ESP") or d["seg"] in ("FS", "GS"):
+                continue
+            if "Memory" in (d["k0"], d["k1"]) and (d["base"] == "None" or d["base"] == d["index"]):
+                continue
+            have.setdefault(d["code"], (c, d))
+    out = []
+    for code in sorted(have):
+        c, d = have[code]
+        for k in list(range(0, 18)):
+            out.append(make_state(rng, c, d, rip, force_rsp=STACK + PAGE - k, force_T=AREA_RW + 0x300))
+        for k in range(0, 10):
+            out.append(make_state(rng, c, d, rip, force_rsp=STACK + k, force_T=AREA_RW + 0x300))
     return out
 
 
